@@ -357,7 +357,7 @@ PROPS = {
         'gen_sections': ['Facts'],
         'drivers': [{'name': 'c09'}, {'name': 'cook'}, {'name': 'hist'}],
         'reasons': ['C09.'],
-        'class_fields': _merge(HIST_CLASS, {'crypt': ['size'], 'tamper09': ['what', 'variant', 'ep', 'status'], 'cookiedec': ['value'], 'nonces': ['dups'], 'outscan': ['sink', 'kind', 'found'],
+        'class_fields': _merge(HIST_CLASS, {'crypt': ['size'], 'tamper09': ['what', 'variant', 'ep', 'status'], 'relogin09': ['samekey', 'oldopens', 'newopens'], 'cookiedec': ['value'], 'nonces': ['dups'], 'outscan': ['sink', 'kind', 'found'],
                                             'setcookie': ['class', 'clear'], 'logscan': ['kind']}),
         'nontrivial': _merge(HIST_NT, {'logscan': lambda f: False, 'setcookie': lambda f: False, 'jar': lambda f: False, 'retrychain': lambda f: False, 'retryreset': lambda f: False, 'ratelimit': lambda f: False}),
         'rule': "c09 driver: real Crypter on plaintext sizes 0..64 KiB (1 MiB thorough): every single-bit flip (sampled above 20 kbit), every truncation, extension, other key, plaintext-as-ciphertext; 20 000 encryptions for nonce repeats; "
